@@ -2402,7 +2402,7 @@ func (c *streamableClientConn) Write(ctx context.Context, msg jsonrpc.Message) e
 	contentType := baseMediaType(resp.Header.Get("Content-Type"))
 	switch contentType {
 	case "application/json":
-		go c.handleJSON(requestSummary, resp)
+		go c.handleJSON(ctx, requestSummary, resp)
 
 	case "text/event-stream":
 		var forCall *jsonrpc.Request
@@ -2483,10 +2483,16 @@ func protocolVersionFromMessage(msg jsonrpc.Message) string {
 	return v
 }
 
-func (c *streamableClientConn) handleJSON(requestSummary string, resp *http.Response) {
+func (c *streamableClientConn) handleJSON(ctx context.Context, requestSummary string, resp *http.Response) {
 	body, err := io.ReadAll(resp.Body)
 	resp.Body.Close()
 	if err != nil {
+		// The request, and with it the response body, is bound to the context
+		// of the call. If the caller gave up while the body was in transit,
+		// only that call is affected: the connection is still healthy.
+		if ctx.Err() != nil {
+			return
+		}
 		c.fail(fmt.Errorf("%s: failed to read body: %v", requestSummary, err))
 		return
 	}
